@@ -81,4 +81,151 @@ theorem collect_ok (rules : List Rule) (mb : W) (hmsb : mb.getLsbD 63 = false)
       · exact ih (i + 1) f _ (by omega) (by omega)
     · exact ⟨acc, rfl⟩
 
+theorem initMask_bit (n : Nat) (h : n ≤ 63) (i : Nat) :
+    (((1 : W) <<< n) - 1).getLsbD i = decide (i < n) := by
+  have h1 : (((1 : W) <<< n) - 1).toNat = 2 ^ n - 1 := by
+    rw [BitVec.toNat_sub, BitVec.toNat_shiftLeft]
+    have : (2:Nat)^n < 2^64 := Nat.pow_lt_pow_right (by omega) (by omega)
+    have hp : 0 < (2:Nat)^n := Nat.pow_pos (by omega)
+    simp [Nat.shiftLeft_eq, Nat.mod_eq_of_lt this]
+    omega
+  rw [← BitVec.testBit_toNat, h1, Nat.testBit_two_pow_sub_one]
+
+theorem or_onehot_bit (x : W) (n i : Nat) (hn : n < 64) :
+    (x ||| ((1 : W) <<< n)).getLsbD i = (x.getLsbD i || decide (i = n)) := by
+  by_cases hi : i < 64
+  · rw [BitVec.getLsbD_or, onehot_bit n i hi]
+  · have hne : ¬ i = n := by omega
+    simp [BitVec.getLsbD_of_ge _ i (by omega : 64 ≤ i), hne]
+
+theorem onehot_inj {i j : Nat} (hi : i < 64) (h : (1 : W) <<< i = (1 : W) <<< j) : i = j := by
+  have h1 := onehot_bit i i hi
+  rw [h, onehot_bit j i hi] at h1
+  simpa using h1
+
+theorem and_onehot_ne_zero_of_bit {mb : W} {i : Nat} (hi : i < 64) (h : mb.getLsbD i = true) :
+    mb &&& ((1 : W) <<< i) ≠ 0 := by
+  intro hc
+  have := congrArg (·.getLsbD i) hc
+  simp only [BitVec.getLsbD_and, onehot_bit i i hi, h] at this
+  simp at this
+
+/-- per-bit form of the mask step with per-bit side conditions -/
+theorem matchStep_bit' (bits bitsAny add cur : W) (i : Nat)
+    (h1 : bitsAny.getLsbD i = true → bits.getLsbD i = true)
+    (h2 : add.getLsbD i = true → bits.getLsbD i = true) :
+    (cur ^^^ (cur &&& ((bitsAny ||| add) ^^^ bits))).getLsbD i =
+      (cur.getLsbD i && (!bits.getLsbD i || bitsAny.getLsbD i || add.getLsbD i)) := by
+  simp only [BitVec.getLsbD_xor, BitVec.getLsbD_and, BitVec.getLsbD_or]
+  generalize cur.getLsbD i = c at *
+  generalize bits.getLsbD i = b at *
+  generalize bitsAny.getLsbD i = a at *
+  generalize add.getLsbD i = d at *
+  cases c <;> cases b <;> cases a <;> cases d <;> simp_all
+
+/-- the rules whose bit is set, in rule order (bit `i` belongs to the head of the list) -/
+def pick (mb : W) : List Rule → Nat → List Rule
+  | [], _ => []
+  | r :: rest, i => (if mb.getLsbD i then [r] else []) ++ pick mb rest (i + 1)
+
+theorem pick_nil (mb : W) : ∀ (l : List Rule) (i : Nat), (∀ j, i ≤ j → mb.getLsbD j = false) → pick mb l i = [] := by
+  intro l
+  induction l with
+  | nil => intro i _; rfl
+  | cons r rest ih =>
+    intro i h
+    simp [pick, h i (Nat.le_refl _), ih (i + 1) (fun j hj => h j (by omega))]
+
+theorem pick_eq_filter (mb : W) (P : Rule → Bool) : ∀ (l : List Rule) (i : Nat),
+    (∀ j (h : j < l.length), mb.getLsbD (i + j) = P l[j]) → pick mb l i = l.filter P := by
+  intro l
+  induction l with
+  | nil => intro i _; rfl
+  | cons r rest ih =>
+    intro i h
+    have h0 := h 0 (by simp)
+    simp only [Nat.add_zero, List.getElem_cons_zero] at h0
+    have hr := ih (i + 1) (fun j hj => by
+      have := h (j + 1) (by simp; omega)
+      simpa [Nat.add_assoc, Nat.add_comm 1 j] using this)
+    simp only [pick, h0, hr, List.filter_cons]
+    cases P r <;> simp
+
+theorem drop_cons {l : List Rule} : ∀ {i : Nat} {r : Rule} {suf : List Rule}, l.drop i = r :: suf →
+    l[i]? = some r ∧ l.drop (i + 1) = suf := by
+  induction l with
+  | nil => intro i r suf h; simp at h
+  | cons a rest ih =>
+    intro i r suf h
+    cases i with
+    | zero => simp at h; simp [h.1, h.2]
+    | succ i => simp at h; simpa using ih h
+
+/-- the collection loop returns exactly the rules whose bit is set, in rule order -/
+theorem collect_spec (rules : List Rule) (mb : W) (hmsb : mb.getLsbD 63 = false)
+    (hlen : ∀ i, mb.getLsbD i = true → i < rules.length) :
+    ∀ (k i fuel : Nat) (acc : List Rule), i + k = 63 → k + 1 ≤ fuel →
+      collect rules mb fuel i ((1 : W) <<< i) acc = .ok (acc ++ pick mb (rules.drop i) i) := by
+  have hsmall : mb.toNat < 2 ^ 63 := by
+    have h1 : mb.msb = false := by rw [BitVec.msb_eq_getLsbD_last]; exact hmsb
+    rw [BitVec.msb_eq_decide] at h1
+    simpa using h1
+  -- all bits from `i` on are clear when `1 <<< i` exceeds the mask
+  have hclear : ∀ i, i ≤ 63 → ¬ ((1 : W) <<< i ≤ mb) → ∀ j, i ≤ j → mb.getLsbD j = false := by
+    intro i hi hnot j hj
+    rw [BitVec.not_le, BitVec.lt_def, BitVec.toNat_shiftLeft] at hnot
+    have h2 : (2:Nat)^i < 2^64 := Nat.pow_lt_pow_right (by omega) (by omega)
+    simp [Nat.shiftLeft_eq, Nat.mod_eq_of_lt h2] at hnot
+    rw [← BitVec.testBit_toNat]
+    apply Nat.testBit_lt_two_pow
+    exact Nat.lt_of_lt_of_le hnot (Nat.pow_le_pow_right (by omega) hj)
+  intro k
+  induction k with
+  | zero =>
+    intro i fuel acc hi hf
+    have : i = 63 := by omega
+    subst this
+    obtain ⟨f, rfl⟩ : ∃ f, fuel = f + 1 := ⟨fuel - 1, by omega⟩
+    have hnot : ¬ ((1 : W) <<< 63 ≤ mb) := by
+      intro hle
+      rw [BitVec.le_def] at hle
+      have : ((1 : W) <<< 63).toNat = 2 ^ 63 := by decide
+      omega
+    rw [collect, if_neg hnot, pick_nil mb _ 63 (hclear 63 (by omega) hnot)]
+    simp
+  | succ k ih =>
+    intro i fuel acc hi hf
+    obtain ⟨f, rfl⟩ : ∃ f, fuel = f + 1 := ⟨fuel - 1, by omega⟩
+    have hi64 : i < 64 := by omega
+    rw [collect]
+    have hs : ((1 : W) <<< i) <<< 1 = (1 : W) <<< (i + 1) := by rw [BitVec.shiftLeft_add]
+    by_cases hle : (1 : W) <<< i ≤ mb
+    · rw [if_pos hle, hs]
+      by_cases hne : mb &&& ((1 : W) <<< i) ≠ 0
+      · rw [if_pos hne]
+        have hb := and_onehot_ne_zero hne
+        have hl := hlen i hb
+        have hd := List.drop_eq_getElem_cons hl
+        rw [List.getElem?_eq_getElem hl]
+        simp only
+        rw [ih (i + 1) f _ (by omega) (by omega), hd]
+        simp [pick, hb]
+      · rw [if_neg hne]
+        have hb : mb.getLsbD i = false := by
+          cases hbb : mb.getLsbD i with
+          | false => rfl
+          | true => exact absurd (and_onehot_ne_zero_of_bit hi64 hbb) hne
+        rw [ih (i + 1) f _ (by omega) (by omega)]
+        cases hd : rules.drop i with
+        | nil =>
+          have : rules.drop (i + 1) = [] := by
+            have := List.drop_eq_nil_iff.mp hd
+            exact List.drop_eq_nil_iff.mpr (by omega)
+          simp [this, pick]
+        | cons r suf =>
+          rw [(drop_cons hd).2]
+          simp [pick, hb]
+    · rw [if_neg hle, pick_nil mb _ i (hclear i (by omega) hle)]
+      simp
+
 end Ecal.Engine
